@@ -90,6 +90,17 @@ type Ctx struct {
 	ViolByKey   map[string]int64  // full counts
 	FirstByKey  map[string]string // first message per key
 	Notes       map[string]string // free-form driver-visible notes
+	Inconcl     []string          // reasons why this run cannot give a verdict
+}
+
+// Inconclusive records that the run cannot give a verdict (never folded into held/violated).
+func (c *Ctx) Inconclusive(msg string) {
+	for _, m := range c.Inconcl {
+		if m == msg {
+			return
+		}
+	}
+	c.Inconcl = append(c.Inconcl, msg)
 }
 
 func NewCtx(prop, tier string, seed int64) *Ctx {
